@@ -15,7 +15,11 @@ func buildCorpus(g *Group, work string) error {
 	mod := filepath.Join(work, "corpus")
 	g.Dir = mod
 	g.PkgDir = filepath.Join(mod, g.Name)
-	if _, err := os.Stat(filepath.Join(g.PkgDir, g.Name+".pb.fm.go")); err == nil {
+	schemaName := g.Schema
+	if schemaName == "" {
+		schemaName = g.Name
+	}
+	if _, err := os.Stat(filepath.Join(g.PkgDir, schemaName+".pb.go")); err == nil {
 		return nil
 	}
 	bin := filepath.Join(work, "bin")
@@ -51,11 +55,11 @@ func buildCorpus(g *Group, work string) error {
 		return err
 	}
 	os.WriteFile(filepath.Join(mod, "go.sum"), sum, 0o644)
-	schema := filepath.Join(verifDir, "corpus", "schemas", g.Name+".textpb")
-	if err := run(work, filepath.Join(bin, "corpusgen"), "-schemas", schema, "-generate", g.Name+".proto", "-plugin", filepath.Join(bin, "protoc-gen-go"), "-param", "paths=source_relative", "-out", g.PkgDir); err != nil {
+	schema := filepath.Join(verifDir, "corpus", "schemas", schemaName+".textpb")
+	if err := run(work, filepath.Join(bin, "corpusgen"), "-schemas", schema, "-generate", schemaName+".proto", "-plugin", filepath.Join(bin, "protoc-gen-go"), "-param", "paths=source_relative", "-out", g.PkgDir); err != nil {
 		return err
 	}
-	if err := run(work, filepath.Join(bin, "corpusgen"), "-schemas", schema, "-generate", g.Name+".proto", "-plugin", filepath.Join(bin, "protoc-gen-fastmarshal"), "-param", g.FmParams, "-out", g.PkgDir); err != nil {
+	if err := run(work, filepath.Join(bin, "corpusgen"), "-schemas", schema, "-generate", schemaName+".proto", "-plugin", filepath.Join(bin, "protoc-gen-fastmarshal"), "-param", g.FmParams, "-out", g.PkgDir); err != nil {
 		return err
 	}
 	// the generated code must compile; a schema whose output does not compile makes the run inconclusive
